@@ -845,6 +845,9 @@ def run_one(name: str, whitelist: list, out_path: Path) -> dict:
                     node = find_call_kwarg(tree, spec["callee"], spec["kw"], spec.get("cls"), spec.get("func"), spec.get("index", 0))
                 else:
                     raise Unsupported(f"kind {kind}")
+                if kind in ("default", "call_kwarg") and isinstance(node, ast.Name):
+                    # the value is the name of a module-level constant: translate what that name is bound to
+                    node = find_assign(tree, node.id)
                 v, t = const_value(node)
                 chunks.append(f"(* {rel}:{node.lineno} *)\nDefinition {coqname} : {t} := {v}.\n")
             status[coqname] = "ok"
